@@ -53,7 +53,8 @@ def scale_props(sc, given=True, status="unscaled", unsupported=False):
         elif k == "Polynomial":
             props += [[p + "_Scale_Type"] + _s("Polynomial"), [p + "_Polynomial_Coefficients_Size"] + _u(len(s["c"])),
                       [p + "_Polynomial_Input_Source"] + _u(_src(s["src"]))]
-            props += [[p + "_Polynomial_Coefficients[%d]" % j] + _d(c) for j, c in enumerate(s["c"])]
+            # (property order carries no meaning: the coefficients are listed from the highest power down)
+            props += [[p + "_Polynomial_Coefficients[%d]" % j] + _d(c) for j, c in reversed(list(enumerate(s["c"])))]
         elif k == "Table":
             t = s["t"]
             props += [[p + "_Scale_Type"] + _s("Table"), [p + "_Table_Scaled_Values_Size"] + _u(len(t["ins"])),
